@@ -82,11 +82,13 @@ func (s ConsulSource) Certificates() chan []tls.Certificate {
 	config, key, err := parseConsulURL(s.CertURL)
 	if err != nil {
 		log.Printf("[ERROR] cert: Failed to parse consul url. %s", err)
+		return nil
 	}
 
 	client, err := api.NewClient(config)
 	if err != nil {
 		log.Printf("[ERROR] cert: Failed to create consul client. %s", err)
+		return nil
 	}
 
 	pemBlocksCh := make(chan map[string][]byte, 1)
